@@ -12,7 +12,7 @@ import ast
 
 from ..model import self_attr, unparse, walk_body_shallow
 from .c09 import exc_table
-from .util import aliases_of, chains_in, call_name, call_recv, calls_in, kwarg, need, node_assign_value, norm, registrations, where
+from .util import callee_expr, aliases_of, chains_in, call_name, call_recv, calls_in, kwarg, need, node_assign_value, norm, registrations, where
 
 TECHNIQUE = "error-funnel completeness over Deferred chains with per-failure-class path pruning; arm exhaustiveness"
 EXPLANATION = (
@@ -117,6 +117,9 @@ def run(ctx):
 
     def sink_pred(c):
         nm, rc = call_name(c), call_recv(c) or ""
+        ce_ = callee_expr(c)
+        if ce_ is not c.func and isinstance(ce_, ast.Attribute):
+            nm, rc = ce_.attr, unparse(ce_.value)
         if nm == "rejoin_after_error" and rc == "self":
             return True
         if nm == "stop" and rc == "self" and (kwarg(c, "errback_result") is not None or c.args):
